@@ -95,6 +95,7 @@ func (o UnmarshalOptions) unmarshal(b []byte, m protoreflect.Message) (out proto
 		Reset(m.Interface())
 	}
 	allowPartial := o.AllowPartial
+	merge := o.Merge
 	o.Merge = true
 	o.AllowPartial = true
 	methods := protoMethods(m)
@@ -129,7 +130,12 @@ func (o UnmarshalOptions) unmarshal(b []byte, m protoreflect.Message) (out proto
 	if err != nil {
 		return out, err
 	}
-	if allowPartial || (out.Flags&protoiface.UnmarshalInitialized != 0) {
+	if allowPartial {
+		return out, nil
+	}
+	// UnmarshalInitialized only vouches for the data that was just decoded.
+	// When merging into existing content, that content needs checking too.
+	if !merge && out.Flags&protoiface.UnmarshalInitialized != 0 {
 		return out, nil
 	}
 	return out, checkInitialized(m)
